@@ -47,6 +47,12 @@ CHECKS = {
     "C19": ("boundary monitors on graphql_schema / validate_schema / print_schema / graphql_sync + resolver call log; oracles: model of the documented type mapping (one-to-one type-map walk), apischema.serialize for result data, apischema.deserialize for arguments",
             "Exploration: every generated program (data model + operations + settings) is built, validated with graphql-core, printed, walked against a model of the documented mapping (kinds, names under the GraphQL aliaser, nullability, ID, enum values, interfaces, unions, defaults), executed with queries selecting every field (result = serialize of the resolver value, enums by name, Undefined as null) and with valid / invalid / omitted arguments passed through variables (resolver log = deserialize values; invalid arguments give errors and an empty log).",
             "Trusted: the mapping model and program generator (vf/c19_model.py), graphql-core 3.2.4; argument validity for GraphQL-well-typed data is decided by the real deserialize.", "DESIGN §5 C19"),
+    "C09": ("history checker: forked history processes over a pool of registry-sensitive types; differential oracles = same observation after cache.reset() in a forked child + fresh interpreter replaying only the configuration; replay-based attribution of the culprit operation",
+            "Exploration with an exhaustively enumerated sub-space: every observation of every executed history (short shapes S0-S4 over the sensitive operation/observation pairs, complete in the thorough tier when not time-capped, plus 50-200-step random histories) returned exactly what the same process returns after a cache reset and what a fresh interpreter returns after replaying only the configuration operations; held on the K observations reported, with the operation x observation matrix of what was exercised.",
+            "Trusted: the pool module (ops are replayed by name), the canonical rendering, fork semantics, PYTHONHASHSEED=0. Not covered: GraphQL resolvers, user-kept precomputed methods (allowed to stay old), typing-equal unions (F21, known), threads (C20).", "DESIGN §5 C09"),
+    "C11": ("boundary monitors on deserialize / serialize / *_schema / ValidationError.errors / graphql_schema type map (+ one graphql_sync execution) over enumerated alias x class-aliaser x dynamic-aliaser programs; oracle = two-line external-name formula, mismatches labelled by explanatory wrong formulas",
+            "Exploration: for every generated object type and aliaser configuration the external name of each field is observed in 24 views (key consumed / produced, properties, required, dependentRequired of both schemas, error locs incl. validator-yielded aliases, GraphQL output / input / argument names) and compared with aliaser(class_aliaser(alias or name)); thorough enumerates the whole stated pool (exhaustive flag in the evidence), quick a seeded slice covering every pair of feature values.",
+            "Trusted: the two-line formula and the source emitter of vf/c11_gen.py; GraphQL views only for GraphQL-legal names; methods checked for agreement only.", "DESIGN §5 C11"),
 }
 PLANNED = {
 }
